@@ -1411,6 +1411,9 @@ impl<'w> Gen<'w> {
             let id = self.fresh_id();
             self.probe(&x(&hs, vec![coin(5, JUNO_DENOM)], MMsg::RC { sender: RawAddr::valid(victim.as_str()), amount: 5, inner: Inner::CB { id } }));
             self.probe(&x(&hs, vec![coin(5, JUNO_DENOM)], MMsg::RN { sender: RawAddr::valid(victim.as_str()), token_id: "t000".into(), inner: Inner::CB { id } }));
+            // the same from a plain account and with amount 0 / an undecodable inner message
+            self.probe(&x(victim.as_str(), vec![coin(5, JUNO_DENOM)], MMsg::RC { sender: RawAddr::valid(victim.as_str()), amount: 0, inner: Inner::CB { id } }));
+            self.probe(&x(victim.as_str(), vec![coin(5, JUNO_DENOM)], MMsg::RC { sender: RawAddr::valid(victim.as_str()), amount: 0, inner: Inner::Bad }));
             // every hook kind with coins, aimed at records that exist (the hook alone would succeed) and at fresh ids
             let mut inners: Vec<(String, Inner)> = vec![(victim.clone(), Inner::CL { id: id + 1, create: Create { ask: RawGBal::natives(vec![coin(3, "uatom")]), whitelist: None } })];
             if let Some(((o, bid), _)) = bs.first() {
@@ -1422,6 +1425,8 @@ impl<'w> Gen<'w> {
             for (who, inner) in inners {
                 for f in [vec![coin(5, JUNO_DENOM)], vec![coin(1, JUNO_DENOM), coin(1, USDC_DENOM)]] {
                     self.probe(&x(&hs, f.clone(), MMsg::RC { sender: RawAddr::valid(who.as_str()), amount: 5, inner: inner.clone() }));
+                    // … and with a zero amount (a hook that does nothing must still refuse the coins)
+                    self.probe(&x(&hs, f.clone(), MMsg::RC { sender: RawAddr::valid(who.as_str()), amount: 0, inner: inner.clone() }));
                     self.probe(&x(&hs, f, MMsg::RN { sender: RawAddr::valid(who.as_str()), token_id: "t000".into(), inner: inner.clone() }));
                 }
             }
@@ -1505,6 +1510,8 @@ impl<'w> Gen<'w> {
                 let v = RawAddr::valid(l.creator.as_str());
                 self.probe(&x(h, vec![], MMsg::RC { sender: v.clone(), amount: 5, inner: Inner::AL { id: l.id } }));
                 self.probe(&x(h, vec![], MMsg::RN { sender: v.clone(), token_id: "t001".into(), inner: Inner::AL { id: l.id } }));
+                // a zero amount never comes from a real token (cw20-base refuses it); a hook call can carry one
+                self.probe(&x(h, vec![], MMsg::RC { sender: v.clone(), amount: 0, inner: Inner::AL { id: l.id } }));
                 // re-creating an existing id in the victim's name
                 let create = Create { ask: RawGBal::natives(vec![coin(1, JUNO_DENOM)]), whitelist: None };
                 self.probe(&x(h, vec![], MMsg::RC { sender: v.clone(), amount: 5, inner: Inner::CL { id: l.id, create: create.clone() } }));
@@ -1524,6 +1531,10 @@ impl<'w> Gen<'w> {
             let id = self.fresh_id();
             self.probe(&x(h, vec![], MMsg::RC { sender: RawAddr::valid(victim.as_str()), amount: 5, inner: Inner::CB { id } }));
             self.probe(&x(h, vec![], MMsg::RN { sender: RawAddr::valid(victim.as_str()), token_id: "t001".into(), inner: Inner::CB { id } }));
+            // … and with a zero amount (a record made of nothing must be refused on every creation path)
+            self.probe(&x(h, vec![], MMsg::RC { sender: RawAddr::valid(victim.as_str()), amount: 0, inner: Inner::CB { id } }));
+            let create0 = Create { ask: RawGBal::natives(vec![coin(1, JUNO_DENOM)]), whitelist: None };
+            self.probe(&x(h, vec![], MMsg::RC { sender: RawAddr::valid(victim.as_str()), amount: 0, inner: Inner::CL { id, create: create0 } }));
         }
         // the freeze itself: with the hostile token rejecting transfers, a forged top-up makes the
         // victim's exit fail (known finding C18); evaluated in a sub-history on a fork
@@ -1533,7 +1544,15 @@ impl<'w> Gen<'w> {
             let init = self.h.resync();
             self.emit(&init);
             self.step(&x(h, vec![], MMsg::RC { sender: RawAddr::valid(o.as_str()), amount: 5, inner: Inner::AB { id: *id } }));
+            self.step(&x(h, vec![], MMsg::RN { sender: RawAddr::valid(o.as_str()), token_id: "t001".into(), inner: Inner::AB { id: *id } }));
             self.step(&x(o.as_str(), vec![], MMsg::RB { id: *id }));
+            // the same for a listing in preparation: junk token and junk NFT, then the creator's delete
+            if let Some((_, l)) = ls.iter().find(|p| p.1.status == Status::BeingPrepared) {
+                let v = RawAddr::valid(l.creator.as_str());
+                self.step(&x(h, vec![], MMsg::RC { sender: v.clone(), amount: 5, inner: Inner::AL { id: l.id } }));
+                self.step(&x(h, vec![], MMsg::RN { sender: v, token_id: "t001".into(), inner: Inner::AL { id: l.id } }));
+                self.step(&x(l.creator.as_str(), vec![], MMsg::DL { id: l.id }));
+            }
             self.pop();
         }
         // repeated forged top-ups of the same records (the second call meets the forger's own entry): whatever
